@@ -3,6 +3,7 @@ package rules
 
 import (
 	"fmt"
+	"go/token"
 	"go/types"
 	"sort"
 	"strings"
@@ -243,13 +244,11 @@ func (c *Ctx) StateOps(fn *ssa.Function) []StateOp {
 			out = append(out, ops...)
 			continue
 		}
-		if f := StaticCallee(call); f != nil && f.Blocks != nil && f.Pkg != nil && c.P.ByPath[f.Pkg.Pkg.Path()] != nil && len(f.Blocks) == 1 {
-			// straight-line helper: its constant-key ops happen at this call
-			for _, ic := range Calls(f) {
-				if op, ok := stateOp(ic); ok && op.Const {
-					op.Call = call
-					out = append(out, op)
-				}
+		if f := StaticCallee(call); f != nil {
+			// helper: its unconditional constant-key ops happen at this call
+			for _, op := range c.helperOps(f) {
+				op.Call = call
+				out = append(out, op)
 			}
 		}
 	}
@@ -279,12 +278,10 @@ func (c *Ctx) opsOfCall(call ssa.CallInstruction) []StateOp {
 		return ops
 	}
 	var out []StateOp
-	if f := StaticCallee(call); f != nil && f.Blocks != nil && f.Pkg != nil && c.P.ByPath[f.Pkg.Pkg.Path()] != nil && len(f.Blocks) == 1 {
-		for _, ic := range Calls(f) {
-			if op, ok := stateOp(ic); ok && op.Const {
-				op.Call = call
-				out = append(out, op)
-			}
+	if f := StaticCallee(call); f != nil {
+		for _, op := range c.helperOps(f) {
+			op.Call = call
+			out = append(out, op)
 		}
 	}
 	return out
@@ -655,6 +652,9 @@ func constSet(v ssa.Value) []*ssa.Const {
 	if sl, ok := base.(*ssa.Slice); ok {
 		base = sl.X
 	}
+	if g, ok := base.(*ssa.Global); ok {
+		return globalConstSet(g)
+	}
 	a, ok := base.(*ssa.Alloc)
 	if !ok || a.Referrers() == nil {
 		return nil
@@ -675,6 +675,107 @@ func constSet(v ssa.Value) []*ssa.Const {
 				return nil // a non-constant element: not a constant set
 			}
 			out = append(out, c)
+		}
+	}
+	return out
+}
+
+// globalConstSet: the constants a package-level array/slice variable is
+// initialised with (stores in the package initialiser), nil if any element is
+// not a constant or the variable is written elsewhere.
+func globalConstSet(g *ssa.Global) []*ssa.Const {
+	init := g.Pkg.Func("init")
+	if init == nil {
+		return nil
+	}
+	var out []*ssa.Const
+	for _, b := range init.Blocks {
+		for _, in := range b.Instrs {
+			st, ok := in.(*ssa.Store)
+			if !ok {
+				continue
+			}
+			ia, ok := st.Addr.(*ssa.IndexAddr)
+			if !ok {
+				continue
+			}
+			base := ia.X
+			if sl, ok := base.(*ssa.Slice); ok {
+				base = sl.X
+			}
+			if base != ssa.Value(g) {
+				// a local literal later stored into the global
+				a, isA := base.(*ssa.Alloc)
+				if !isA || a.Referrers() == nil {
+					continue
+				}
+				feeds := false
+				for _, r := range *a.Referrers() {
+					switch x := r.(type) {
+					case *ssa.Store:
+						if x.Addr == ssa.Value(g) {
+							feeds = true
+						}
+					case *ssa.Slice:
+						if x.Referrers() != nil {
+							for _, rr := range *x.Referrers() {
+								if s2, ok := rr.(*ssa.Store); ok && s2.Addr == ssa.Value(g) {
+									feeds = true
+								}
+							}
+						}
+					case *ssa.UnOp:
+						if x.Referrers() != nil {
+							for _, rr := range *x.Referrers() {
+								if s2, ok := rr.(*ssa.Store); ok && s2.Addr == ssa.Value(g) {
+									feeds = true
+								}
+							}
+						}
+					}
+				}
+				if !feeds {
+					continue
+				}
+			}
+			c, isC := st.Val.(*ssa.Const)
+			if !isC {
+				return nil
+			}
+			out = append(out, c)
+		}
+	}
+	return out
+}
+
+// helperOps: the client-state operations a repository helper performs on every
+// call: operations in blocks that are not control-dependent on anything but
+// loop conditions (a helper that loops over a literal list of keys).
+func (c *Ctx) helperOps(f *ssa.Function) []StateOp {
+	if f == nil || f.Blocks == nil || f.Pkg == nil || c.P.ByPath[f.Pkg.Pkg.Path()] == nil {
+		return nil
+	}
+	var out []StateOp
+	for _, ic := range Calls(f) {
+		ops := stateOpsOf(ic)
+		if len(ops) == 0 {
+			continue
+		}
+		uncond := true
+		for _, fa := range FactsAtInstr(ic.(ssa.Instruction)) {
+			rel := fa.Rel()
+			if rel.Op == token.LSS || rel.Op == token.GTR {
+				continue // loop condition
+			}
+			uncond = false
+		}
+		if !uncond {
+			continue
+		}
+		for _, op := range ops {
+			if op.Const {
+				out = append(out, op)
+			}
 		}
 	}
 	return out
